@@ -104,13 +104,17 @@ CLAIMED = {
          "timeout_timer_exits_partial, no_accumulation; with C08 worker_exits and C09 abort_only_after_end. Tie: ~125 scenarios thread-creating "
          "operator x terminating cause (including the subscription ended by another thread at the very instant an item arrives / a timer fires) under "
          "seeded schedules in virtual time: every library thread has exited at quiescence and no later than one "
-         "timer period after the subscription ended. NOT modelled: OS thread teardown; nestings beyond the catalogue.",
+         "timer period after the subscription ended; PLUS co-simulation of the Timeout / Interval / Timer / Debounce / Rounds LTSs including the threads' "
+         "exit instants (exitedAt). NOT modelled: OS thread teardown; nestings beyond the catalogue.",
          "§5 C15", "Lean 4 proof (virtual-time LTSs, partial) + exploration in virtual time with thread accounting"),
  "C16": ("partial: Theorems Rx.Timed.* (C16.lean) in discrete virtual time, all periods and gap scripts, all interleavings within an instant: interval_ticks, "
          "timer_once, delay_times (order kept, hand-over d after receipt; delays accumulate because the source thread sleeps), timeout_exact (no ties), "
          "timeout_never_fires_on_slow_consumer (handling times of the consumer), debounce_subsequence, sample_subsequence. Tie: the real operators on the "
          "facade's virtual clock; the expected (instant, event) lists are computed BY THE LEAN MODEL (Rx.Timed.expectedLine = the lists the theorems speak "
-         "about) for fixed and random gap / handling scripts and compared exactly. NOT modelled: real time, scheduling latency, Instant/SystemTime values.",
+         "about) for fixed and random gap / handling scripts and compared exactly; PLUS co-simulation of the six LTSs (Timeout, Delay, Interval, Timer, "
+         "Debounce, Sample): every explored schedule, including deliberate ties, is checked for linearisability against `step` with the recorded records "
+         "(Interval's emit step was refuted this way and split). NOT modelled: real time, scheduling latency, Instant/SystemTime values; a next arriving "
+         "at the exact instant a timeout fires (noTie).",
          "§5 C16", "Lean 4 proof (virtual-time LTSs, partial) + exploration on a virtual clock"),
  "C12": ("Theorems Rx.Conc.* (C12.lean) on lock-level LTSs of Subject, ReplaySubject, BehaviorSubject for any number of threads and programs: "
          "stays_subscribed_gets_all, per_producer_gap_free, no_duplicates, late_subscriber_suffix, unsubscriber_prefix. The late-subscriber clauses for "
